@@ -82,6 +82,7 @@ type Sched struct {
 	exp      *Explorer
 	finisher  func()
 	finishing bool
+	envH      uint64
 }
 
 var (
@@ -142,8 +143,35 @@ func (t *Thread) Point(op *Op) {
 	t.pending = op
 	t.parked = true
 	t.steps++
+	// Every point advances the thread's history hash (kind of operation and the thread's own step
+	// count, both functions of the thread's history): a harness-defined point (an FS call, a
+	// storage call) that no shim follows must still change the state key, otherwise the decision
+	// after it would look like a state already expanded and its subtree would be pruned.
+	t.H = mix(t.H, strHash(op.Kind), uint64(t.steps))
 	s.mu.Unlock()
 	<-t.resume
+}
+
+func strHash(s string) uint64 {
+	h := uint64(14695981039346656037)
+	for i := 0; i < len(s); i++ {
+		h ^= uint64(s[i])
+		h *= 1099511628211
+	}
+	return h
+}
+
+// EnvPoint is a scheduling point for an operation on harness-owned shared state (a fake file, a
+// shared storage): besides parking, it orders the operation after every earlier EnvPoint operation
+// in the happens-before hashes (conservatively: all environment operations are treated as
+// conflicting), so that two states that differ in the order of environment operations are never
+// merged by the state cache.
+func (t *Thread) EnvPoint(kind string) {
+	t.Point(&Op{Kind: kind})
+	s := t.s
+	s.mu.Lock()
+	t.Acq(&s.envH, strHash(kind))
+	s.mu.Unlock()
 }
 
 // Acq records an acquire-release operation on the object whose history hash is *obj.
